@@ -11,7 +11,7 @@ Import ListNotations.
 Open Scope Z_scope.
 
 Section MX.
-  (* the range function: step time and the window's points; None = no sample *)
+  (* the range function: the window's end (step time - offset) and its points; None = no sample *)
   Variable fn : Z -> list point -> option Z.
   Variables range off step : Z.
 
@@ -22,7 +22,7 @@ Section MX.
     | t :: rest =>
         let '(s1, pts) := ms_step range off step s t in
         let '(s2, vs) := mx_scan_steps s1 rest in
-        (s2, fn t pts :: vs)
+        (s2, fn (t - off) pts :: vs)
     end.
 
   (* one call of Next over the batch timestamps [steps] *)
@@ -40,7 +40,7 @@ Section MX.
     end.
 
   (* the stateless description of the operator's output at one step *)
-  Definition range_value (ss : list sample) (t : Z) : option Z := fn t (window_at range off ss t).
+  Definition range_value (ss : list sample) (t : Z) : option Z := fn (t - off) (window_at range off ss t).
 
   Definition range_step (sers : list (list sample)) (t : Z) : stepvec :=
     stepvec_of t (map (fun ss => range_value ss t) sers).
@@ -75,7 +75,7 @@ Section MX.
   Lemma mx_scan_ms s steps :
     mx_scan_steps s steps =
     (fst (ms_scan range off step s steps),
-     map (fun tw => fn (fst tw) (snd tw)) (combine steps (snd (ms_scan range off step s steps)))).
+     map (fun tw => fn (fst tw - off) (snd tw)) (combine steps (snd (ms_scan range off step s steps)))).
   Proof.
     revert s. induction steps as [|t rest IH]; intros s; simpl; [reflexivity|].
     destruct (ms_step range off step s t) as [s1 w]. rewrite IH.
@@ -127,7 +127,7 @@ Section MX.
     intros Hall E. rewrite !map_map. split.
     - apply map_ext_in. intros ss Hin. rewrite Forall_forall in Hall.
       rewrite mx_scan_ms. cbn [snd]. rewrite (Hall ss Hin pre b suf E).
-      apply (combine_map_same fn).
+      apply (combine_map_same (fun t => fn (t - off))).
     - apply map_ext. intros ss. rewrite mx_scan_ms. cbn [fst]. rewrite ms_scan_app. reflexivity.
   Qed.
 
